@@ -689,8 +689,9 @@ def alias(root, params):
                         (immut(init.get("id")) or (init.get("id") in modes and "Ref" not in modes[init.get("id")] and not written_in(rest, init.get("id")))):
                     ren[s["pat"]["id"]] = init
                     continue
-                if isinstance(init, dict) and immut(s["pat"].get("id")) and s.get("norm") == "unrolled" and \
-                        (init.get("k") == "lit" or (init.get("k") == "def" and init.get("dk") in ("Const", "AssocConst"))):
+                if isinstance(init, dict) and immut(s["pat"].get("id")) and \
+                        ((init.get("k") == "lit" and s.get("norm") in ("unrolled", "specialised")) or
+                         (init.get("k") == "def" and init.get("dk") in ("Const", "AssocConst"))):
                     ren[s["pat"]["id"]] = init          # an element of an unrolled const table: the constant itself
                     continue
             out.append(s)
@@ -872,6 +873,121 @@ def unroll_const_loops(root, const_bodies, ids, limit=32):
                         "ln": n.get("ln"), "ty": "()", "norm": "unrolled", "unrolled_from": tab["path"]})
         return {"k": "block", "stmts": out, "ln": n.get("ln"), "ty": "()", "norm": "unrolled"}
     return map_tree(root, fn)
+
+
+def _range_binding(p_):
+    """The single `name @ lo..=hi` (integer literals, at most 16 values) inside pattern p_: (path to it, pbind, lo, hi) or None."""
+    found = []
+
+    def go(q, path):
+        if not isinstance(q, dict):
+            return
+        if q.get("k") == "pbind" and isinstance(q.get("sub"), dict) and q["sub"].get("k") == "prange":
+            r = q["sub"]
+            lo, hi = r.get("lo"), r.get("hi")
+            if isinstance(lo, dict) and isinstance(hi, dict) and lo.get("k") == "lit" and hi.get("k") == "lit" and \
+                    isinstance(lo.get("v"), int) and isinstance(hi.get("v"), int) and lo.get("t") == "int":
+                top = hi["v"] if r.get("incl") else hi["v"] - 1
+                if 0 <= top - lo["v"] < 16:
+                    found.append((path, q, lo, top))
+            return
+        if q.get("k") == "pbind" and "sub" in q:
+            found.append(None)
+            return
+        for key in ("pats",):
+            for i, x in enumerate(q.get(key, []) or []):
+                go(x, path + [(key, i)])
+        for i, f in enumerate(q.get("fields", []) or []):
+            if isinstance(f, dict) and "p" in f:
+                go(f["p"], path + [("fields", i)])
+        if isinstance(q.get("p"), dict):
+            go(q["p"], path + [("p", None)])
+    go(p_, [])
+    if len(found) == 1 and found[0] is not None:
+        return found[0]
+    return None
+
+
+def specialise_range_arms(root, ids):
+    """An arm `(.., k @ 2..=5) => body` is the arms `(.., 2) => body[k:=2]`, ..., `(.., 5) => body[k:=5]`; a `match` on a literal
+    is the body of the first arm the literal matches.  A dispatch on `k` inside the body then reads like the arms written out."""
+    def lit_matches(p_, v):
+        k = p_.get("k")
+        if k == "pwild":
+            return True
+        if k == "lit":
+            return p_.get("v") == v if isinstance(p_.get("v"), int) else None
+        if k == "prange":
+            lo, hi = p_.get("lo"), p_.get("hi")
+            if all(isinstance(x, dict) and x.get("k") == "lit" and isinstance(x.get("v"), int) for x in (lo, hi)):
+                return lo["v"] <= v <= (hi["v"] if p_.get("incl") else hi["v"] - 1)
+            return None
+        if k == "por":
+            rs = [lit_matches(x, v) for x in p_.get("pats", [])]
+            return None if any(r is None for r in rs) else any(rs)
+        return None
+
+    def split(n):
+        if n.get("k") != "match" or n.get("src") not in ("Normal", None):
+            return n
+        arms, changed = [], False
+        for a in n.get("arms", []):
+            rb = None if a.get("guard") else _range_binding(a["pat"])
+            if rb is None:
+                arms.append(a)
+                continue
+            path, bind, lo, top = rb
+            for v in range(lo["v"], top + 1):
+                off = ids.next() * 1000
+                a2 = copy.deepcopy(a)
+                tgt = a2["pat"]
+                parent, key = None, None
+                for kname, i in path:
+                    parent, key = tgt, (kname, i)
+                    tgt = tgt[kname][i]["p"] if kname == "fields" else (tgt["p"] if kname == "p" else tgt[kname][i])
+                litp = dict(copy.deepcopy(lo), v=v)
+                if parent is None:
+                    a2["pat"] = litp
+                elif key[0] == "fields":
+                    parent["fields"][key[1]]["p"] = litp
+                elif key[0] == "p":
+                    parent["p"] = litp
+                else:
+                    parent[key[0]][key[1]] = litp
+                bid = bind.get("id")
+                bound = {x.get("id") for x in list(all_nodes(a2["pat"])) + list(all_nodes(a2["body"]))
+                         if x.get("k") == "pbind" and isinstance(x.get("id"), int)}
+
+                def sub(x, bid=bid, v=v, off=off, bound=bound):
+                    if x.get("k") == "local" and x.get("id") == bid:
+                        return {"k": "lit", "t": "int", "v": v, "ty": x.get("ty"), "ln": x.get("ln"), "norm": "specialised"}
+                    if x.get("k") in ("local", "pbind") and x.get("id") in bound:
+                        return dict(x, id=x["id"] + off)
+                    return x
+                a2["body"] = map_tree(a2["body"], sub)
+                a2["pat"] = map_tree(a2["pat"], sub)
+                a2["norm"] = "specialised"
+                arms.append(a2)
+            changed = True
+        return dict(n, arms=arms) if changed else n
+
+    def fold(n):
+        if n.get("k") != "match" or n.get("src") not in ("Normal", None):
+            return n
+        sc = hir.simp(n["scrut"])
+        if not (isinstance(sc, dict) and sc.get("k") == "lit" and isinstance(sc.get("v"), int) and sc.get("t") == "int"):
+            return n
+        for a in n.get("arms", []):
+            if a.get("guard"):
+                return n
+            m = lit_matches(a["pat"], sc["v"])
+            if m is None:
+                return n
+            if m:
+                return a["body"]
+        return n
+    root = map_tree(root, split)
+    return map_tree(root, fold)
 
 
 def split_tuple_lets(root):
@@ -1310,6 +1426,7 @@ def normalise_crate(name, crate):
         h = map_tree(h, _try_for_each(ids))
         h = map_tree(h, _explicit_try(ids))
         h = unroll_const_loops(h, const_bodies, ids)
+        h = specialise_range_arms(h, ids)
         b["hir_pre"] = h
     for b in bodies:
         h = b.pop("hir_pre")
